@@ -169,6 +169,7 @@ class Check:
         cases: Sequence[str],
         expected: Sequence[str],
         chunk: int = 300,
+        preamble: str = "",
     ) -> list[int]:
         """Evaluate the model on every case inside Coq and return the indices whose
         observation differs from `expected`.  `cases`/`expected` are Gallina terms."""
@@ -181,6 +182,7 @@ class Check:
             with open(fn, "w") as f:
                 f.write(f"From LiquidVerif Require Import Prelude {imports}.\n")
                 f.write("Set Printing Width 1000000. Set Printing Depth 1000000.\n")
+                f.write(preamble + "\n")
                 f.write(f"Definition cases : list ({case_type}) := [\n  ")
                 f.write(";\n  ".join(cases[lo:hi]))
                 f.write("\n].\n")
@@ -212,12 +214,13 @@ class Check:
                 out.extend(lo + i for i in idx)
         return sorted(out)
 
-    def coq_eval(self, imports: str, terms: Sequence[str]) -> list[str]:
+    def coq_eval(self, imports: str, terms: Sequence[str], preamble: str = "") -> list[str]:
         """Print the model's value for a few terms (used for replay files)."""
         fn = os.path.join(self.workdir, f"show_{len(os.listdir(self.workdir))}.v")
         with open(fn, "w") as f:
             f.write(f"From LiquidVerif Require Import Prelude {imports}.\n")
             f.write("Set Printing Width 1000000. Set Printing Depth 1000000.\n")
+            f.write(preamble + "\n")
             for t in terms:
                 f.write(f"Eval vm_compute in ({t}).\n")
         r = subprocess.run(
